@@ -211,6 +211,9 @@ def user_body(lang, path, variant, k):
             "      user_%d = 1 %s second line, indented" % (k, c),
             "",
             "user_call(%d)   " % k]
+    if variant == "empty":
+        # a user may replace a generated body by nothing at all (every other block, so that both kinds meet)
+        return [] if k % 2 == 0 else base
     if variant == "tab":
         base[1] = "  int\tuser_%d; %s interior tab" % (k, c)
     elif variant == "trailplus":
@@ -445,6 +448,8 @@ def run(tier):
         for (name, y, cmd) in libs[:3]:
             for variant in ("tab", "trailplus", "trailminus"):
                 jobs.append((name, y, cmd, variant, "file"))
+            jobs.append((name, y, cmd, "empty", "file"))
+            jobs.append((name, y, cmd, "empty", "code"))
         with common.scratch("c12-") as base:
             def one(j):
                 name, y, cmd, variant, how = j
